@@ -98,6 +98,15 @@ def _f13(prop, case, v):
     return '\\ufeff' in text or '\ufeff' in text or 'BOM' in text or 'xff\\xfe' in text
 
 
+@classifier('F18')
+def _f18(prop, case, v):
+    # valuecount(table, field, value) divides the count by the number of rows:
+    # ZeroDivisionError on a table without data rows.  Only this function,
+    # only that exception.
+    return (prop == 'C20' and case.get('op') == 'valuecount' and v.get('kind') == 'exception'
+            and 'ZeroDivisionError' in str(v.get('detail')))
+
+
 @classifier('F17')
 def _f17(prop, case, v):
     # csv/tsv written to a .bz2 target with utf-16 / utf-32 carries no BOM
